@@ -18,5 +18,6 @@ InverseOK == IsInverse(m, minv)
 ZStrings == {[s |-> [i \in 1..N |-> IF i \in A THEN 3 ELSE 0], k |-> 0] : A \in SUBSET (1..N)}
 RECURSIVE SetSeq(_)
 SetSeq(T) == IF T = {} THEN <<>> ELSE LET x == CHOOSE x \in T : TRUE IN <<<<Enc(x), Enc(Apply(m', x))>>>> \o SetSeq(T \ {x})
-EmitSim == PrintT(ToString(<<"S", TLCGet("level"), Enc(lbl'), EncM(m'), EncM(minv'), SetSeq(ZStrings)>>))
+EmitSim == PrintT(ToString(<<"S", TLCGet("level"), Enc(lbl'), EncM(m'), EncM(minv'), IF N <= 5 THEN SetSeq(ZStrings) ELSE <<>>,
+    IF N <= 5 THEN [i \in 1..N |-> Enc(Apply(m', YOp(i, N)))] ELSE <<>>>>))
 =============================================================================
